@@ -11,11 +11,13 @@ pub mod c06;
 pub mod c07;
 pub mod c08;
 pub mod c09;
+pub mod c13;
 pub mod c14;
 pub mod c15;
 pub mod c16;
 pub mod c17;
 pub mod c18;
+pub mod c19;
 pub mod sessmode;
 
 pub struct Report {
@@ -112,8 +114,10 @@ pub fn run(args: &Args) -> J {
         "c16" => c16::run(args, &mut rep),
         "c09" => c09::run(args, &mut rep),
         "c08" => c08::run(args, &mut rep),
+        "c13" => c13::run(args, &mut rep),
         "c14" => c14::run(args, &mut rep),
         "c18" => c18::run(args, &mut rep),
+        "c19" => c19::run(args, &mut rep),
         m => {
             rep.inconclusive.push(format!("unknown mode {}", m));
         }
